@@ -13,7 +13,7 @@ import ast
 from ..core import AnalysisError
 from ..cfg import CFG
 from ..flow import Defs, deps
-from ..pyfront import dotted, call_name, kwarg, params, src, walk_no_nested, const
+from ..pyfront import dotted, call_name, kwarg, params, src, walk_no_nested, const, inline_locals
 
 EXPLANATION = (
     "Dependence-set analysis of the cell conversion functions (which inputs each output depends on is semantic: it "
@@ -179,12 +179,12 @@ def check(ctx):
     else:
         want = ["self._unitcell_lengths[:, 0]", "self._unitcell_lengths[:, 1]", "self._unitcell_lengths[:, 2]",
                 "self._unitcell_angles[:, 0]", "self._unitcell_angles[:, 1]", "self._unitcell_angles[:, 2]"]
-        got = [src(a) for a in calls[0].args]
+        got = [inline_locals(g, a) for a in calls[0].args]
         for i, (wv, gv) in enumerate(zip(want, got + [""] * 6)):
             ctx.decide(wv == gv, "C17-R3", calls[0], TRAJ, "Trajectory.unitcell_vectors.getter", "argument %d is %s" % (i, wv), "",
                        "argument %d of lengths_and_angles_to_box_vectors is `%s`, expected `%s`" % (i, gv, wv))
-        r = [n for n in walk_no_nested(g) if isinstance(n, ast.Return) and n.value is not None and "dstack" in src(n.value)]
-        ok = bool(r) and src(r[0].value).replace(" ", "") == "np.swapaxes(np.dstack((v1,v2,v3)),1,2)"
+        r = [n for n in walk_no_nested(g) if isinstance(n, ast.Return) and n.value is not None and not (isinstance(n.value, ast.Constant) and n.value.value is None)]
+        ok = len(r) == 1 and inline_locals(g, r[0].value, depth=1).replace(" ", "") == "np.swapaxes(np.dstack((v1,v2,v3)),1,2)"
         tg = [n for n in walk_no_nested(g) if isinstance(n, ast.Assign) and isinstance(n.targets[0], ast.Tuple)]
         ok = ok and bool(tg) and src(tg[0].targets[0]) == "(v1, v2, v3)"
         ctx.decide(ok, "C17-R3", r[0] if r else g, TRAJ, "Trajectory.unitcell_vectors.getter", "rows of the result are v1, v2, v3", "", "the three vectors are stacked in another order / orientation")
